@@ -32,6 +32,15 @@ def apply_variant(repo, v):
     path = os.path.join(repo, v["file"])
     with open(path) as f:
         s = f.read()
+    if "regex" in v:
+        import re
+        i = s.find("#[cfg(test)]")
+        head, tail = (s, "") if i < 0 else (s[:i], s[i:])
+        for pat, rep_ in v["regex"]:
+            head = re.sub(pat, rep_, head)
+        with open(path, "w") as f:
+            f.write(head + tail)
+        return True, ""
     edits = v["edits"] if "edits" in v else [(v["old"], v["new"])]
     for old, new in edits:
         n = s.count(old)
@@ -67,7 +76,49 @@ def run_variant(v, base_repo="/repo", tier="quick", keep=False):
             shutil.rmtree(tmp, ignore_errors=True)
 
 
+def run_benign(v, base_repo="/repo"):
+    tmp = tempfile.mkdtemp(prefix="rubato_ben_")
+    try:
+        repo = os.path.join(tmp, "repo")
+        shutil.copytree(base_repo, repo, ignore=shutil.ignore_patterns("target", ".git"))
+        ok, why = apply_variant(repo, v)
+        if not ok:
+            return "inapplicable", why
+        # the edit must still compile
+        c = subprocess.run(["cargo", "check", "--offline", "--lib", "-q"], cwd=repo, capture_output=True, text=True, env=dict(os.environ, CARGO_TARGET_DIR="/tmp/seed_target", CARGO_NET_OFFLINE="true"))
+        if c.returncode != 0:
+            return "inapplicable", "variant does not compile: " + c.stderr[-300:]
+        env = dict(os.environ)
+        env["VERIF_EVIDENCE_DIR"] = os.path.join(tmp, "evidence")
+        bad = []
+        for p in v["properties"]:
+            r = subprocess.run([os.path.join(VERIF, "check"), p, "--repo", repo], capture_output=True, text=True, env=env)
+            if r.returncode != 0:
+                bad.append("%s exit %d: %s" % (p, r.returncode, " | ".join(l.strip()[:200] for l in r.stdout.splitlines() if l.strip().startswith("FAIL"))[:700]))
+        return ("false-alarm", "\n".join(bad)) if bad else ("silent", "")
+    finally:
+        shutil.rmtree(tmp, ignore_errors=True)
+
+
+def main_benign():
+    import catalogue
+    bad = 0
+    from concurrent.futures import ThreadPoolExecutor
+    with ThreadPoolExecutor(max_workers=4) as ex:
+        results = list(ex.map(lambda v: (v, run_benign(v)), catalogue.BENIGN))
+    for v, (status, why) in results:
+        print("%-12s %-40s %s" % (status, v["name"], ",".join(v["properties"])))
+        if status != "silent":
+            print("    " + why.replace("\n", "\n    ")[:1500])
+        if status == "false-alarm":
+            bad += 1
+    print("benign: %d variants, %d false alarms" % (len(results), bad))
+    return 2 if bad else 0
+
+
 def main():
+    if "--benign" in sys.argv:
+        return main_benign()
     args = [a for a in sys.argv[1:] if not a.startswith("--")]
     only = None
     if "--only" in sys.argv:
